@@ -2,7 +2,10 @@
 
 use ed25519_dalek::{Signature, Signer, SigningKey, Verifier, VerifyingKey};
 use serde::{Deserialize, Serialize};
+#[cfg(not(mainline_verif))]
 use std::{convert::TryFrom, time::SystemTime};
+#[cfg(mainline_verif)]
+use {crate::verif::SystemTime, std::convert::TryFrom};
 
 use crate::Id;
 
